@@ -392,7 +392,7 @@ def run(ctx):
     cdir = os.path.join(common.VERIF, 'corpus', 'C04')
     if os.path.isdir(cdir):
         for f in sorted(os.listdir(cdir)):
-            if f.endswith('.json') and not f.startswith('known_'):
+            if f.endswith('.json') and not f.startswith('known_') and not f.startswith('project_'):
                 programs.append(('corpus/' + f, json.load(open(os.path.join(cdir, f)))['source']))
     for i, p in enumerate(fd.HAND_PROGRAMS):
         programs.append(('hand%d.py' % i, p))
